@@ -51,7 +51,7 @@ func gen(rt *rapid.T) any {
 	if r.Prog.Corpus == "" {
 		r.Prog.ForceImports = gencommon.ForceImports(rt)
 	}
-	r.Front = gencommon.Front(rt, gencommon.FrontSpec{Faults: []string{"discard_ref", "discard_reset", "abort_stmt"}, MaxFaults: 3, Constructs: []string{"inline_closure", "bigint_op", "unit_lit", "unsafe_ref"}, FileAssign: true, Writes: true})
+	r.Front = gencommon.Front(rt, gencommon.FrontSpec{Faults: []string{"discard_ref", "discard_reset", "abort_stmt"}, MaxFaults: 3, Constructs: []string{"inline_closure", "bigint_op", "unit_lit", "unsafe_ref", "bti_call"}, FileAssign: true, Writes: true})
 	r.MapDflt = rapid.IntRange(0, 23).Draw(rt, "mapdflt")
 	n := rapid.IntRange(0, 6).Draw(rt, "nmo")
 	for i := 0; i < n; i++ {
@@ -68,7 +68,7 @@ var undefSelRe = regexp.MustCompile(`(\w+)\.(\w+) undefined \(type .* has no fie
 var implicitBase = map[string]string{"big": "math/big", "strconv": "strconv", "strings": "strings", "fmt": "fmt", "builtin": "github.com/goplus/gogen/internal/builtin"}
 
 // gogen may add references of its own to these packages (documented implicit imports).
-var implicitOK = map[string]bool{"strconv": true, "strings": true, "math/big": true, "github.com/goplus/gogen/internal/builtin": true}
+var implicitOK = map[string]bool{"strconv": true, "strings": true, "math/big": true, "github.com/goplus/gogen/internal/builtin": true, "sort": true, "fmt": true}
 
 func declKind(info *types.Info, id *ast.Ident, obj types.Object, funcScopes map[*types.Scope]string) string {
 	switch o := obj.(type) {
